@@ -1051,6 +1051,14 @@ func (x *Exec) callModifies(c *ssa.CallCommon, mods map[string]bool) bool {
 		return false
 	}
 	_ = key
+	if !(callee.Blocks != nil && x.inlinable(callee)) && !x.frameMode {
+		// no contract, not inlined: the transitive frame summary of its body
+		sm, all := x.modSummary(callee)
+		for hn := range sm {
+			mods[hn] = true
+		}
+		return all
+	}
 	// inlined: scan body
 	if callee.Blocks != nil && x.inlinable(callee) {
 		all := false
@@ -1080,6 +1088,129 @@ func (x *Exec) callModifies(c *ssa.CallCommon, mods map[string]bool) bool {
 }
 
 func (x *Exec) dynPure() bool { return x.fc != nil && x.fc.hasGhost("dyncalls-pure") }
+
+// modSummary is the transitive frame of a function without contract, computed from its SSA: the heaps (by pointee
+// type) it may write or allocate in, following static calls, resolvable closures and the module's implementations of
+// interface methods; all=true when something unknown is reached (a dynamic call, an external function outside the
+// listed library packages, go/defer). Callees under contract contribute their `modifies`. The summary of a function
+// is cached only for the function the query started from (members of a cycle are not cached with partial results).
+var modSumMemo = struct {
+	sync.Mutex
+	m map[*ssa.Function]*modSum
+}{m: map[*ssa.Function]*modSum{}}
+
+type modSum struct {
+	heaps map[string]bool
+	all   bool
+}
+
+func (x *Exec) modSummary(fn *ssa.Function) (map[string]bool, bool) {
+	if o := fn.Origin(); o != nil {
+		fn = o
+	}
+	modSumMemo.Lock()
+	if r := modSumMemo.m[fn]; r != nil {
+		modSumMemo.Unlock()
+		return r.heaps, r.all
+	}
+	modSumMemo.Unlock()
+	heaps := map[string]bool{}
+	seen := map[*ssa.Function]bool{}
+	all := x.modSumWalk(fn, heaps, seen, 0)
+	modSumMemo.Lock()
+	modSumMemo.m[fn] = &modSum{heaps, all}
+	modSumMemo.Unlock()
+	return heaps, all
+}
+
+func (x *Exec) modSumWalk(fn *ssa.Function, heaps map[string]bool, seen map[*ssa.Function]bool, depth int) bool {
+	if o := fn.Origin(); o != nil {
+		fn = o
+	}
+	if seen[fn] {
+		return false
+	}
+	seen[fn] = true
+	if depth > 12 || len(seen) > 400 {
+		return true
+	}
+	if fc, _ := x.contractOf(fn); fc != nil && depth > 0 {
+		if fc.ModAll {
+			return true
+		}
+		for _, m := range fc.Modifies {
+			for _, hn := range x.modHeapNames(m, fn, nil) {
+				heaps[hn] = true
+			}
+		}
+		return false
+	}
+	if x.isAssumedPure(fn) {
+		return false
+	}
+	if fn.Blocks == nil {
+		return true
+	}
+	all := false
+	for _, b := range fn.Blocks {
+		for _, in := range b.Instrs {
+			switch i := in.(type) {
+			case *ssa.Go, *ssa.Defer, *ssa.Select, *ssa.Send:
+				return true
+			case *ssa.Call:
+				c := i.Common()
+				if _, ok := c.Value.(*ssa.Builtin); ok {
+					x.callModifies(c, heaps)
+					continue
+				}
+				if c.IsInvoke() {
+					if ms := x.methodSpec(c); ms != nil && (ms.Mode == "fn" || ms.Mode == "log") {
+						continue
+					}
+					impls := x.implementers(c.Value.Type())
+					if len(impls) == 0 {
+						return true
+					}
+					for _, t := range impls {
+						m := x.L.Prog.LookupMethod(t, c.Method.Pkg(), c.Method.Name())
+						if m == nil {
+							return true
+						}
+						if x.modSumWalk(m, heaps, seen, depth+1) {
+							return true
+						}
+					}
+					continue
+				}
+				callee := c.StaticCallee()
+				if callee == nil {
+					if mc, ok := c.Value.(*ssa.MakeClosure); ok {
+						callee = mc.Fn.(*ssa.Function)
+					} else if rc := resolveCallee(c); rc != nil {
+						callee = rc
+					} else {
+						return true
+					}
+				}
+				if x.modSumWalk(callee, heaps, seen, depth+1) {
+					return true
+				}
+			case *ssa.MakeClosure:
+				// a closure created here may be called by a callee: its effects are part of this function's frame
+				if cf, ok := i.Fn.(*ssa.Function); ok {
+					if x.modSumWalk(cf, heaps, seen, depth+1) {
+						return true
+					}
+				}
+			default:
+				if x.instrModifies(in, heaps) {
+					all = true
+				}
+			}
+		}
+	}
+	return all
+}
 
 func (fc *FuncContract) hasGhost(s string) bool {
 	for _, g := range fc.Ghost {
